@@ -3,8 +3,9 @@
    Griffe side (models.py / expressions.py / mixins.py):
      Expr.canonical_path (ExprName through Object.resolve, ExprAttribute, ExprSubscript),
      ModulesCollection.get_member walking a dotted path through aliases, Alias.final_target /
-     resolve_target with their cycle guards, the `except (AliasResolutionError, CyclicAliasError, KeyError)`
-     drop of Class.resolved_bases and the `is_class` filter of Class._mro.
+     resolve_target with their cycle guards, the loop of Class.resolved_bases that follows an attribute assigned a
+     name / attribute chain (fix 3a123f9, `followed` path set), the `except (AliasResolutionError, CyclicAliasError,
+     KeyError)` drop and the `is_class` filter of Class._mro.
    Authority side: what the class statement means in Python once every module has run: a name bound by
      `X = <expr>` denotes what the expression denotes, builtins and unloaded modules (object, typing.Generic)
      are classes like any other, `A[int]` stands for `A` among the bases (__mro_entries__).
